@@ -19,6 +19,7 @@ import CrCube.Lemmas.SubtotalFacts
 import CrCube.Lemmas.Wsum
 import CrCube.Lemmas.MergeFacts
 import CrCube.Lemmas.MergePrims
+import CrCube.Lemmas.MergeFacts3
 
 namespace CrCube.C04
 open CrCube SubSpec
@@ -35,6 +36,14 @@ theorem gauntlet_drops_stale (validIds : List Int) (i : Insertion)
     simp only [List.contains_iff_mem]
     exact h x hx
   rw [this, Bool.and_false]
+
+/-- insertions defined in the analysis transforms (the key is present, even with an empty
+    list) replace the view-level ones entirely; array dimensions never carry subtotals -/
+theorem transform_replaces_view (validIds : List Int) (t view : List Insertion) :
+    dimensionSubtotals false validIds (some t) view = resolveSubtotals validIds t
+      ∧ dimensionSubtotals false validIds none view = resolveSubtotals validIds view
+      ∧ dimensionSubtotals true validIds (some t) view = []
+      ∧ dimensionSubtotals true validIds none view = [] := ⟨rfl, rfl, rfl, rfl⟩
 
 /-- **subtotal_count** (rows): the inserted row of `SumSubtotals` is Σ addends − Σ subtrahends,
     taken over the existing elements whose id is listed (Spec `signedMerge`). -/
@@ -457,6 +466,47 @@ theorem merge_equiv_proportions_cols (hlt : ∀ a ∈ A, a < nc) (dn : Bool) (x 
     simp [Msr.counts, SumSub.blocks, Msr.tableBases]
 
 end merge
+
+/-- **merge_equiv** (rows of a CAT × MR slice, the six primitives): merging categories of the rows
+    dimension when the columns are multiple-response items -/
+theorem merge_equiv_rows_catXmr (c : FT) (nr nc np : Nat) (hc : c.shape = [nr, nc, np]) (A : List Nat)
+    (hn : A.Nodup) (hlt : ∀ a ∈ A, a < nr) (dn : Bool) (x : SubCtx) (k j : Nat)
+    (hS : subAt x.rowSubs k = ⟨A, []⟩) :
+    primsInsRow (MatCounts.catXmr c) dn x k j
+      = primsBody (MatCounts.catXmr (mergeAxis c 0 A)) (mergedPos nr A) j := by
+  have hs0 := mergeAxis0_shape3 c nr nc np A hc
+  obtain ⟨d0, d1, d2⟩ := dims_of_shape3 c nr nc np hc
+  obtain ⟨e0, e1, e2⟩ := dims_of_shape3 (mergeAxis c 0 A) _ nc np hs0
+  have hcount := mergeAxis0_get3_merged c nr nc np A hc
+  unfold primsInsRow primsBody
+  simp only [Msr.counts, Msr.rowWeightedBases, Msr.columnWeightedBases, Msr.tableBases, SumSub.blocks,
+    PosSub.blocks, NegSub.blocks, SumSub.row, PosSub.row, NegSub.row, hS, Subtotal.isDiff,
+    MatCounts.catXmr, d0, d1, d2, e0, e1, e2, hcount, List.isEmpty_nil, Bool.not_true, Bool.and_false,
+    Bool.false_eq_true, if_false, sumAt_nil, Val.sub_fin0]
+  congr 1
+  · simp only [vsum_eq_sumAt]; exact sumAt_comm _ _ _
+  · exact (sum_axis0_merged c nr nc np A hc hn hlt j 0).symm
+  · exact (sum2_axis0_merged c nr nc np A hc hn hlt j).symm
+
+/-- **merge_equiv** (columns of an MR × CAT slice, the six primitives) -/
+theorem merge_equiv_cols_mrXcat (c : FT) (nr np nc : Nat) (hc : c.shape = [nr, np, nc]) (B : List Nat)
+    (hn : B.Nodup) (hlt : ∀ a ∈ B, a < nc) (dn : Bool) (x : SubCtx) (i l : Nat)
+    (hS : subAt x.colSubs l = ⟨B, []⟩) :
+    primsInsCol (MatCounts.mrXcat c) dn x i l
+      = primsBody (MatCounts.mrXcat (mergeAxis c 2 B)) i (mergedPos nc B) := by
+  have hs0 := mergeAxis2_shape3 c nr np nc B hc
+  obtain ⟨d0, d1, d2⟩ := dims_of_shape3 c nr np nc hc
+  obtain ⟨e0, e1, e2⟩ := dims_of_shape3 (mergeAxis c 2 B) nr np _ hs0
+  have hcount := mergeAxis2_get3_merged c nr np nc B hc
+  unfold primsInsCol primsBody
+  simp only [Msr.counts, Msr.rowWeightedBases, Msr.columnWeightedBases, Msr.tableBases, SumSub.blocks,
+    PosSub.blocks, NegSub.blocks, SumSub.col, PosSub.col, NegSub.col, hS, Subtotal.isDiff,
+    MatCounts.mrXcat, d0, d1, d2, e0, e1, e2, hcount, List.isEmpty_nil, Bool.not_true, Bool.and_false,
+    Bool.false_eq_true, if_false, sumAt_nil, Val.sub_fin0]
+  congr 1
+  · exact (sum_axis2_merged c nr np nc B hc hn hlt i 0).symm
+  · simp only [vsum_eq_sumAt]; exact sumAt_comm _ _ _
+  · exact (sum2_axis2_merged c nr np nc B hc hn hlt i).symm
 
 /-- **merge_equiv** (intersection count): a row subtotal × column subtotal cell (neither a
     difference) is the cell of the two merged categories in the twice-merged table -/
